@@ -1106,7 +1106,7 @@ def run_c07(ctx):
 # ------------------------------------------------------------------ C04
 def run_c04(ctx):
     n = _tier(ctx, 1500, 40000)
-    results, meta, summary = _stream(ctx, 'c04', n, 'none', _tier(ctx, 600, 5400))
+    results, meta, summary = _stream(ctx, 'c04', n, 'c04.jsonl', _tier(ctx, 600, 5400))
     _merge_dist(ctx, summary)
     ent = lambda m: {'subject': m['subject'], 'clip': m['clip'], 'ct': m['ct'], 'fr': m['fr']}
     viol = []
